@@ -254,11 +254,17 @@ func main() {
 	}
 	collect()
 	work := filepath.Join(os.TempDir(), fmt.Sprintf("gocv-%s-%d", prop, os.Getpid()))
-	defer func() {
+	if *dump {
+		// kept for inspection: not named like the scratch directories that later runs sweep
+		work = filepath.Join(os.TempDir(), fmt.Sprintf("gocv-dump-%s-%d", prop, os.Getpid()))
+	}
+	sweepWorkDirs()
+	cleanup := func() {
 		if !*dump {
 			os.RemoveAll(work)
 		}
-	}()
+	}
+	defer cleanup()
 	// obligations recorded as open known findings get a short budget: they are expected to fail
 	quickNames := map[string]bool{}
 	if data, err := os.ReadFile(filepath.Join(*verif, "known_findings.json")); err == nil {
@@ -789,7 +795,28 @@ func main() {
 		fmt.Println(v)
 	}
 	if len(violations) > 0 {
+		cleanup()
 		os.Exit(1)
+	}
+}
+
+// sweepWorkDirs removes the scratch directories (gocv-<property>-<pid>) of earlier runs whose process is gone: a run
+// that was killed (timeout, memory) can not remove its own.
+func sweepWorkDirs() {
+	ents, err := os.ReadDir(os.TempDir())
+	if err != nil {
+		return
+	}
+	re := regexp.MustCompile(`^gocv-C[0-9]+-([0-9]+)$`)
+	for _, e := range ents {
+		m := re.FindStringSubmatch(e.Name())
+		if m == nil || !e.IsDir() {
+			continue
+		}
+		if _, err := os.Stat("/proc/" + m[1]); err == nil {
+			continue
+		}
+		os.RemoveAll(filepath.Join(os.TempDir(), e.Name()))
 	}
 }
 
